@@ -21,6 +21,8 @@ def main():
     c.correspond("disp")
     c.correspond("rbc")
     c.correspond("classify")
+    c.correspond("auth")
+    c.correspond("frame")
     return c.finish(
         rule="fuzz: for every entry point (Scheme.HandleMessage in states idle/synchronising/protocol running/finished; disc.Member.HandleMessage idle/synchronising/finished incl. response bursts; "
              "ClassifyMsg/OnMsg of mpc/bls and mpc/ps initialised/finished; DKG runs with a participant sending mutated messages; TPS.Sign, ps.Verifier.Init/Verify, bls.Verifier.Init/Verify, SetShareData) "
